@@ -41,6 +41,11 @@ RawPositionsOk(e) ==
     LET ps == RawPositions(e)
     IN  /\ \A t \in 1..Len(ps) : ps[t] >= 0 /\ ps[t] < 1073741824
         /\ StrictlyIncreasing(ps)
+\* any order, duplicates allowed: accepted by the bit vector constructors (not by DArray)
+RawPositionsUnordered(e) ==
+    LET ps == RawPositions(e)
+    IN  /\ e.kind \in {"BV", "BVM"} /\ ~RawPositionsOk(e)
+        /\ \A t \in 1..Len(ps) : ps[t] >= 0 /\ ps[t] < 1073741824
 
 \* "nv" = 1 marks a huge input that is only measured (space events): its flat value is never
 \* needed, only its length and symbol counts, which are computed from the segments
@@ -57,7 +62,7 @@ NewVal(e) ==
         IF e.path \in {"default", "bvm_new", "with_capacity"} THEN << >>
         ELSE IF e.path = "with_zeros" THEN [q \in 1..e.n |-> 0]
         ELSE IF e.path = "positions" THEN
-            (IF Has(e, "pos") THEN (IF RawPositionsOk(e) THEN BitsOfPositions(RawPositions(e)) ELSE << >>)
+            (IF Has(e, "pos") THEN (IF RawPositionsOk(e) \/ RawPositionsUnordered(e) THEN BitsOfPositions(RawPositions(e)) ELSE << >>)
              ELSE TruncAfterLastOne(Flat(e.segs)))
         ELSE Flat(e.segs)
 
@@ -368,16 +373,19 @@ NewObj ==
            fam == FamOfKind(e.kind)
            ty == IF Has(e, "ty") THEN e.ty ELSE ""
            rawbad == e.k = "newb" /\ e.path = "positions" /\ Has(e, "pos") /\ ~RawPositionsOk(e)
+           unordered == rawbad /\ RawPositionsUnordered(e)
            cls == (IF fam = "T" THEN TreeFamOf(e.kind) ELSE e.kind) \o ".new." \o
-                  (IF rawbad THEN "bad_positions"
+                  (IF unordered /\ e.out = 0 THEN "unordered_positions"
+                   ELSE IF rawbad THEN "bad_positions"
                    ELSE IF e.path = "default" THEN "default"
                    ELSE IF Len(Val[l]) = 0 /\ ~NoValue(e) THEN "empty"
                    ELSE IF fam = "T" /\ Cardinality(TMeta[l].used) = 1 THEN "single_symbol"
                    ELSE IF fam = "T" THEN "gen" \o WidthClass(TMeta[l].maxsym)
                    ELSE "gen")
            o == Obj(fam, e.kind, ty, l, << >>, e.path = "default")
-       IN  IF rawbad
-           THEN \* documented panic: any outcome, nothing is tracked
+       IN  IF rawbad /\ ~(unordered /\ e.out = 0)
+           THEN \* documented panic: any outcome, nothing is tracked (a bit vector constructor that
+                \* accepts an unordered list is tracked with the set semantics)
                 Advance(Merge(<<ResOk(1, {cls}), IdxRes(e)>>), Del(e.o))
            ELSE IF e.out = 0 THEN Advance(Merge(<<ResOk(1, {cls}), IdxRes(e)>>), Put(e.o, o))
            ELSE IF e.out = NA THEN ToolErr(e, "constructor not available") /\ Advance(ResOk(0, {}), Del(e.o))
@@ -486,7 +494,12 @@ Mut ==
                           ELSE B
                     pre == o.kind \o ".mut." \o e.m
                     hist == IF e.m = "set_bits" /\ ok /\ a[2] > 0 THEN "set_bits" ELSE o.hist
-                IN  IF ~ok
+                    unordered == e.m = "extend_positions" /\ ~ok /\ PositionsDefined(e.pos)
+                IN  IF unordered /\ e.out = 0
+                    THEN \* an unordered / repeating position list was accepted: set semantics
+                         Advance(ResOk(1, {pre \o ".unordered_ok"}),
+                                 Put(e.o, [o EXCEPT !.line = 0, !.seq = MutExtendPositions(B, e.pos), !.hist = hist]))
+                    ELSE IF ~ok
                     THEN \* documented panic: any outcome; the object is no longer tracked
                          Advance(ResOk(1, {pre \o ".documented_panic"}), Put(e.o, [o EXCEPT !.dead = TRUE]))
                     ELSE IF e.out = 0
